@@ -72,6 +72,7 @@ PROBES_WANTED = ['sample_in_last_interval', 'three_in_one_interval', 'stamp_at_s
                  'gps_week_scale_clock', 'negative_clock', 'clock_crosses_zero',
                  'second_run_same', 'second_run_prefix',
                  'measurement_table_not_sorted_by_time', 'interval_without_increment_rows',
+                 'nominal_attitude_identical_in_consecutive_rows',
                  'a_plus_gap_rounds_off_next_stamp', 'stamp_one_ulp_from_epoch']
 
 
